@@ -36,150 +36,7 @@ func closuresPassedTo(fn *ssa.Function, target *types.Func) []*ssa.Function {
 }
 
 func runC13(c *Ctx) {
-	c.rule("C13.T1", "banman store: BanIPNet, Status and UnbanIPNet all derive the record key from encodeIPNet(ipNet) of their own ipNet argument, inside one walletdb.Update transaction; both indexes (expiry and reason) are written / deleted together", func() {
-		upd := c.funcObj("github.com/btcsuite/btcwallet/walletdb", "Update")
-		enc := c.funcObj("banman", "encodeIPNet")
-		bytesM := c.method("bytes", "Buffer", "Bytes")
-		users := map[string]bool{
-			"(*banman.banStore).BanIPNet":   true,
-			"(*banman.banStore).Status":     true,
-			"(*banman.banStore).UnbanIPNet": true,
-		}
-		var names []string
-		for n := range users {
-			names = append(names, n)
-		}
-		sort.Strings(names)
-		for _, name := range names {
-			fn := c.fn(name)
-			cls := closuresPassedTo(fn, upd)
-			construct := name + " | key = encodeIPNet(ipNet).Bytes() inside one transaction"
-			if len(cls) != 1 {
-				c.fail(construct, c.P.Pos(fn.Pos()), fmt.Sprintf("expected one transaction closure passed to walletdb.Update, found %d", len(cls)))
-				continue
-			}
-			cl := cls[0]
-			c.R.Funcs[c.nm(cl)] = true
-			encs := find(cl, callTo(enc))
-			okv := len(encs) == 1
-			detail := ""
-			var users2 []ssa.Instruction
-			if okv {
-				e := ir.CallOf(encs[0])
-				buf := ir.Strip(e.Args[0])
-				// the encoded value is the method's own ipNet parameter (captured)
-				ipParam := fn.Params[1]
-				okIP := false
-				if ld, ok := e.Args[1].(*ssa.UnOp); ok {
-					if fv, ok := ld.X.(*ssa.FreeVar); ok {
-						// binding
-						ir.Instrs(fn, func(in ssa.Instruction) {
-							if mc, ok := in.(*ssa.MakeClosure); ok && mc.Fn == ssa.Value(cl) {
-								for i, b := range mc.Bindings {
-									if cl.FreeVars[i] == fv {
-										if a, ok := b.(*ssa.Alloc); ok {
-											for _, st := range ir.StoresTo(a) {
-												if st.Val == ssa.Value(ipParam) {
-													okIP = true
-												}
-											}
-										}
-									}
-								}
-							}
-						})
-					}
-				}
-				if fv, ok := e.Args[1].(*ssa.FreeVar); ok {
-					ir.Instrs(fn, func(in ssa.Instruction) {
-						if mc, ok := in.(*ssa.MakeClosure); ok && mc.Fn == ssa.Value(cl) {
-							for i, b := range mc.Bindings {
-								if cl.FreeVars[i] == fv && b == ssa.Value(ipParam) {
-									okIP = true
-								}
-							}
-						}
-					})
-				}
-				if !okIP {
-					okv = false
-					detail += "encodeIPNet is not applied to the method's ipNet parameter; "
-				}
-				// every bucket operation of the transaction (its own and those of
-				// the helpers it calls) is keyed by Bytes() of that buffer
-				for _, op := range c.banIndexOps(cl) {
-					users2 = append(users2, op.site)
-					k := op.key
-					if k != nil {
-						k = ir.ValueAt(k, op.site.Block())
-					}
-					kc, isCall := ir.Strip(k).(*ssa.Call)
-					if k == nil || !isCall || !callTo(bytesM)(kc) || ir.Strip(kc.Call.Args[0]) != buf {
-						okv = false
-						detail += op.kind + " at " + c.at(op.in) + " is keyed by something other than the encodeIPNet buffer; "
-					}
-				}
-				if len(users2) == 0 {
-					okv = false
-					detail += "no index operation found; "
-				}
-				// index operations only after a successful encode
-				c.guarded(cl, errNil("encodeIPNet", encs, 0), 1, "index operation", users2, 1, gDominate)
-			} else {
-				detail = fmt.Sprintf("expected exactly one encodeIPNet call, found %d", len(encs))
-			}
-			c.verdict(okv, construct, c.P.Pos(fn.Pos()), "key derives from encodeIPNet of the ipNet argument", detail, c.ats(append(encs, users2...))...)
-		}
-		// both indexes together: the transaction of BanIPNet puts, the ones of
-		// UnbanIPNet and (for an expired record) Status delete, one record in
-		// each of the two nested buckets under the same key, the second only
-		// after the first succeeded
-		for _, spec := range []struct{ fn, kind string }{{"(*banman.banStore).BanIPNet", "Put"}, {"(*banman.banStore).UnbanIPNet", "Delete"}, {"(*banman.banStore).Status", "Delete"}} {
-			fn := c.fn(spec.fn)
-			cls := closuresPassedTo(fn, upd)
-			construct := spec.fn + " | both indexes " + spec.kind + " under the same key"
-			if len(cls) != 1 {
-				c.fail(construct, c.P.Pos(fn.Pos()), "transaction closure not found")
-				continue
-			}
-			ops := opsOfKind(c.banIndexOps(cls[0]), spec.kind)
-			okv := len(ops) == 2 && ops[0].bucket != nil && ops[1].bucket != nil && ops[0].bucket != ops[1].bucket && sameKey(ops[0].key, ops[1].key)
-			c.verdict(okv, construct, c.P.Pos(fn.Pos()), "expiry index and reason index updated with one key", fmt.Sprintf("the expiry index and the reason index are not both updated (%s) under the same key (%d operation(s) found)", spec.kind, len(ops)), c.ats(opIns(ops))...)
-			if okv {
-				host := ops[0].in.Parent()
-				if ops[1].in.Parent() == host {
-					first, second := ops[0], ops[1]
-					if first.in.Block() != second.in.Block() && !ir.Reach([]*ssa.BasicBlock{first.in.Block()}, nil)[second.in.Block()] || first.in.Block() == second.in.Block() && ir.IndexIn(first.in) > ir.IndexIn(second.in) {
-						first, second = second, first
-					}
-					c.guarded(host, errNil("first index "+spec.kind, []ssa.Instruction{first.in}, 0), 1, "second index "+spec.kind, []ssa.Instruction{second.in}, 1, gDominate)
-				}
-			}
-		}
-		// Status reports Banned only for an unexpired record
-		st := c.fn("(*banman.banStore).Status")
-		cl := closuresPassedTo(st, upd)
-		if len(cl) == 1 {
-			before := c.method("time", "Time", "Before")
-			g := boolIs("time.Now().Before(status.Expiration)", find(cl[0], callTo(before)), 0, true)
-			// the store to the result variable (captured banStatus)
-			var sets []ssa.Instruction
-			ir.Instrs(cl[0], func(in ssa.Instruction) {
-				if s, ok := in.(*ssa.Store); ok {
-					// (the captured variable of type Status; other captured
-					// variables - counters, flags - are not the result)
-					if fv, isFV := s.Addr.(*ssa.FreeVar); isFV {
-						if p, ok := fv.Type().(*types.Pointer); ok && namedTypeIs(p.Elem(), ir.ModPath+"/banman", "Status") {
-							sets = append(sets, in)
-						}
-					}
-				}
-			})
-			c.guarded(cl[0], g, 1, "banStatus = status", sets, 1, gDominate)
-			dels := opSites(opsOfKind(c.banIndexOps(cl[0]), "Delete"))
-			c.mustFollow(cl[0], "record expired", c.failEdges(g), oneOf(dels), "removal of the expired record (lazy expiry)", nil, 1)
-		}
-	})
+	c.rule("C13.T1", banStoreDisciplineDoc, func() { c.banStoreDiscipline() })
 
 	c.rule("C13.O3", banRecordedDoc, func() { c.banRecorded() })
 
@@ -597,6 +454,8 @@ func runC13(c *Ctx) {
 		c.verdict(okD, c.nm(cl)+" | returned address is the one checked", c.P.Pos(cl.Pos()), "same SSA value", "the address returned for dialling is not the one checked against the ban list")
 	})
 
+	c.rule("C13.T5", banKeyAgreementDoc, func() { c.banKeyAgreement() })
+
 	c.rule("C13.O1", "OnVersion: a peer lacking SFNodeWitness or SFNodeCF is banned (NoCompactFilters) and disconnected; BanPeer: the deferred disconnect runs on every exit and the store write happens only for a parsed address", func() {
 		fn := c.fn("(*neutrino.ServerPeer).OnVersion")
 		// comparisons  services&flag != flag
@@ -821,5 +680,217 @@ func (c *Ctx) banRecorded() {
 			}
 			c.verdict(len(hbad) == 0, "banman."+spec.helper+" | nil only after both Puts", c.P.Pos(h.Pos()), "returns a Put error or the last Put's result", join(hbad))
 		}
+	}
+}
+
+const banKeyAgreementDoc = "a ban is found again under the address it was set for: ChainService.BanPeer, UnbanPeer and IsBanned hand the ban store the network that banman.ParseIPNet(addr, nil) makes of their own address argument - the same call with the same (nil) mask in all three; the store keys a record by the masked address together with the mask, so a ban recorded for an enclosing network (a /64 for IPv6 peers, say) is not found by a lookup of the single address: the peer that served the invalid block is 'banned' and connects again at once"
+
+// banKeyAgreement: see banKeyAgreementDoc.
+func (c *Ctx) banKeyAgreement() {
+	parse := c.funcObj("banman", "ParseIPNet")
+	for _, spec := range []struct{ fn, op string }{
+		{"(*neutrino.ChainService).BanPeer", "BanIPNet"},
+		{"(*neutrino.ChainService).UnbanPeer", "UnbanIPNet"},
+		{"(*neutrino.ChainService).IsBanned", "Status"},
+	} {
+		fn := c.fn(spec.fn)
+		op := c.method("banman", "Store", spec.op)
+		calls := find(fn, callTo(op))
+		construct := c.nm(fn) + " | store key = banman.ParseIPNet(addr, nil)"
+		if len(calls) == 0 {
+			c.fail(construct, c.P.Pos(fn.Pos()), "no call of banman.Store."+spec.op+" found")
+			continue
+		}
+		var bad []string
+		for _, in := range calls {
+			key := argsOf(in)[0]
+			n := 0
+			var walk func(v ssa.Value, d int)
+			seen := map[ssa.Value]bool{}
+			walk = func(v ssa.Value, d int) {
+				if seen[v] || d > 8 {
+					return
+				}
+				seen[v] = true
+				switch x := v.(type) {
+				case *ssa.Phi:
+					for _, e := range x.Edges {
+						walk(e, d+1)
+					}
+				case *ssa.Extract:
+					call, ok := x.Tuple.(*ssa.Call)
+					if !ok || !callTo(parse)(call) || x.Index != 0 {
+						bad = append(bad, "the key given to "+spec.op+" at "+c.at(in)+" is not a result of banman.ParseIPNet")
+						return
+					}
+					n++
+					a := call.Call.Args
+					if !ir.DerivesFrom(a[0], func(y ssa.Value) bool { return y == ssa.Value(fn.Params[1]) }) {
+						bad = append(bad, "banman.ParseIPNet at "+c.at(call)+" is not applied to the address argument of "+c.nm(fn))
+					}
+					if !ir.IsNil(a[1]) {
+						bad = append(bad, "banman.ParseIPNet at "+c.at(call)+" is given a mask: the record is keyed by a wider network than the other ban operations look up")
+					}
+				case *ssa.Const:
+					// nil on a failure path that is never handed to the store
+				default:
+					bad = append(bad, "the key given to "+spec.op+" at "+c.at(in)+" is not a result of banman.ParseIPNet(addr, nil)")
+				}
+			}
+			walk(key, 0)
+			if n == 0 && len(bad) == 0 {
+				bad = append(bad, "the key given to "+spec.op+" at "+c.at(in)+" is not a result of banman.ParseIPNet")
+			}
+		}
+		sort.Strings(bad)
+		c.verdict(len(bad) == 0, construct, c.at(calls[0]), "the key is the result of ParseIPNet(addr, nil) on every path", join(uniq(bad)), c.ats(calls)...)
+	}
+}
+
+const banStoreDisciplineDoc = "banman store: BanIPNet, Status and UnbanIPNet all derive the record key from encodeIPNet(ipNet) of their own ipNet argument, inside one walletdb.Update transaction; both indexes (expiry and reason) are written / deleted together"
+
+// banStoreDiscipline: see banStoreDisciplineDoc.
+func (c *Ctx) banStoreDiscipline() {
+	upd := c.funcObj("github.com/btcsuite/btcwallet/walletdb", "Update")
+	enc := c.funcObj("banman", "encodeIPNet")
+	bytesM := c.method("bytes", "Buffer", "Bytes")
+	users := map[string]bool{
+		"(*banman.banStore).BanIPNet":   true,
+		"(*banman.banStore).Status":     true,
+		"(*banman.banStore).UnbanIPNet": true,
+	}
+	var names []string
+	for n := range users {
+		names = append(names, n)
+	}
+	sort.Strings(names)
+	for _, name := range names {
+		fn := c.fn(name)
+		cls := closuresPassedTo(fn, upd)
+		construct := name + " | key = encodeIPNet(ipNet).Bytes() inside one transaction"
+		if len(cls) != 1 {
+			c.fail(construct, c.P.Pos(fn.Pos()), fmt.Sprintf("expected one transaction closure passed to walletdb.Update, found %d", len(cls)))
+			continue
+		}
+		cl := cls[0]
+		c.R.Funcs[c.nm(cl)] = true
+		encs := find(cl, callTo(enc))
+		okv := len(encs) == 1
+		detail := ""
+		var users2 []ssa.Instruction
+		if okv {
+			e := ir.CallOf(encs[0])
+			buf := ir.Strip(e.Args[0])
+			// the encoded value is the method's own ipNet parameter (captured)
+			ipParam := fn.Params[1]
+			okIP := false
+			if ld, ok := e.Args[1].(*ssa.UnOp); ok {
+				if fv, ok := ld.X.(*ssa.FreeVar); ok {
+					// binding
+					ir.Instrs(fn, func(in ssa.Instruction) {
+						if mc, ok := in.(*ssa.MakeClosure); ok && mc.Fn == ssa.Value(cl) {
+							for i, b := range mc.Bindings {
+								if cl.FreeVars[i] == fv {
+									if a, ok := b.(*ssa.Alloc); ok {
+										for _, st := range ir.StoresTo(a) {
+											if st.Val == ssa.Value(ipParam) {
+												okIP = true
+											}
+										}
+									}
+								}
+							}
+						}
+					})
+				}
+			}
+			if fv, ok := e.Args[1].(*ssa.FreeVar); ok {
+				ir.Instrs(fn, func(in ssa.Instruction) {
+					if mc, ok := in.(*ssa.MakeClosure); ok && mc.Fn == ssa.Value(cl) {
+						for i, b := range mc.Bindings {
+							if cl.FreeVars[i] == fv && b == ssa.Value(ipParam) {
+								okIP = true
+							}
+						}
+					}
+				})
+			}
+			if !okIP {
+				okv = false
+				detail += "encodeIPNet is not applied to the method's ipNet parameter; "
+			}
+			// every bucket operation of the transaction (its own and those of
+			// the helpers it calls) is keyed by Bytes() of that buffer
+			for _, op := range c.banIndexOps(cl) {
+				users2 = append(users2, op.site)
+				k := op.key
+				if k != nil {
+					k = ir.ValueAt(k, op.site.Block())
+				}
+				kc, isCall := ir.Strip(k).(*ssa.Call)
+				if k == nil || !isCall || !callTo(bytesM)(kc) || ir.Strip(kc.Call.Args[0]) != buf {
+					okv = false
+					detail += op.kind + " at " + c.at(op.in) + " is keyed by something other than the encodeIPNet buffer; "
+				}
+			}
+			if len(users2) == 0 {
+				okv = false
+				detail += "no index operation found; "
+			}
+			// index operations only after a successful encode
+			c.guarded(cl, errNil("encodeIPNet", encs, 0), 1, "index operation", users2, 1, gDominate)
+		} else {
+			detail = fmt.Sprintf("expected exactly one encodeIPNet call, found %d", len(encs))
+		}
+		c.verdict(okv, construct, c.P.Pos(fn.Pos()), "key derives from encodeIPNet of the ipNet argument", detail, c.ats(append(encs, users2...))...)
+	}
+	// both indexes together: the transaction of BanIPNet puts, the ones of
+	// UnbanIPNet and (for an expired record) Status delete, one record in
+	// each of the two nested buckets under the same key, the second only
+	// after the first succeeded
+	for _, spec := range []struct{ fn, kind string }{{"(*banman.banStore).BanIPNet", "Put"}, {"(*banman.banStore).UnbanIPNet", "Delete"}, {"(*banman.banStore).Status", "Delete"}} {
+		fn := c.fn(spec.fn)
+		cls := closuresPassedTo(fn, upd)
+		construct := spec.fn + " | both indexes " + spec.kind + " under the same key"
+		if len(cls) != 1 {
+			c.fail(construct, c.P.Pos(fn.Pos()), "transaction closure not found")
+			continue
+		}
+		ops := opsOfKind(c.banIndexOps(cls[0]), spec.kind)
+		okv := len(ops) == 2 && ops[0].bucket != nil && ops[1].bucket != nil && ops[0].bucket != ops[1].bucket && sameKey(ops[0].key, ops[1].key)
+		c.verdict(okv, construct, c.P.Pos(fn.Pos()), "expiry index and reason index updated with one key", fmt.Sprintf("the expiry index and the reason index are not both updated (%s) under the same key (%d operation(s) found)", spec.kind, len(ops)), c.ats(opIns(ops))...)
+		if okv {
+			host := ops[0].in.Parent()
+			if ops[1].in.Parent() == host {
+				first, second := ops[0], ops[1]
+				if first.in.Block() != second.in.Block() && !ir.Reach([]*ssa.BasicBlock{first.in.Block()}, nil)[second.in.Block()] || first.in.Block() == second.in.Block() && ir.IndexIn(first.in) > ir.IndexIn(second.in) {
+					first, second = second, first
+				}
+				c.guarded(host, errNil("first index "+spec.kind, []ssa.Instruction{first.in}, 0), 1, "second index "+spec.kind, []ssa.Instruction{second.in}, 1, gDominate)
+			}
+		}
+	}
+	// Status reports Banned only for an unexpired record
+	st := c.fn("(*banman.banStore).Status")
+	cl := closuresPassedTo(st, upd)
+	if len(cl) == 1 {
+		before := c.method("time", "Time", "Before")
+		g := boolIs("time.Now().Before(status.Expiration)", find(cl[0], callTo(before)), 0, true)
+		// the store to the result variable (captured banStatus)
+		var sets []ssa.Instruction
+		ir.Instrs(cl[0], func(in ssa.Instruction) {
+			if s, ok := in.(*ssa.Store); ok {
+				// (the captured variable of type Status; other captured
+				// variables - counters, flags - are not the result)
+				if fv, isFV := s.Addr.(*ssa.FreeVar); isFV {
+					if p, ok := fv.Type().(*types.Pointer); ok && namedTypeIs(p.Elem(), ir.ModPath+"/banman", "Status") {
+						sets = append(sets, in)
+					}
+				}
+			}
+		})
+		c.guarded(cl[0], g, 1, "banStatus = status", sets, 1, gDominate)
+		dels := opSites(opsOfKind(c.banIndexOps(cl[0]), "Delete"))
+		c.mustFollow(cl[0], "record expired", c.failEdges(g), oneOf(dels), "removal of the expired record (lazy expiry)", nil, 1)
 	}
 }
